@@ -208,6 +208,10 @@ func (i *Iter) Advance() Type {
 		i.off++
 		i.cur = v & JSONVALUEMASK
 		if i.t == TagNop {
+			if i.cur > 0 {
+				// The skip count is relative to the NOP entry, which was already consumed.
+				i.off--
+			}
 			i.off += int(i.cur)
 			continue
 		}
@@ -310,6 +314,8 @@ func (i *Iter) AdvanceIter(dst *Iter) (Type, error) {
 			if i.cur <= 0 {
 				return TypeNone, errors.New("invalid nop skip")
 			}
+			// The skip count is relative to the NOP entry, which was already consumed.
+			i.off--
 			i.off += int(i.cur)
 			continue
 		}
